@@ -8,6 +8,7 @@ import (
 	"math"
 	"os"
 	"reflect"
+	"runtime/debug"
 	"strconv"
 	"strings"
 
@@ -42,6 +43,9 @@ func VerifT3Replay() {
 		return
 	case "slice":
 		verifT3Slice()
+		return
+	case "enctoodeep":
+		verifT3TooDeep()
 		return
 	case "genblank":
 		verifT3GenericBlank()
@@ -530,5 +534,28 @@ func verifT3GenericBlank() {
 		var y interface{}
 		err := UnmarshalString(g, &y)
 		v.Assert(err != nil, fmt.Sprintf("truncated document %q accepted", doc))
+	}
+}
+
+type verifCycle struct {
+	Next *verifCycle
+}
+
+// verifT3TooDeep: marshalling cyclic data returns an error whose text can be read.
+func verifT3TooDeep() {
+	c := &verifCycle{}
+	c.Next = c
+	defer func() {
+		if r := recover(); r != nil {
+			v.Assert(false, fmt.Sprintf("formatting the too-deep error panicked: %v", r))
+		}
+	}()
+	old := debug.SetPanicOnFault(true)
+	defer debug.SetPanicOnFault(old)
+	_, err := ConfigStd.Marshal(c)
+	v.Assert(err != nil, "cyclic value marshalled without error")
+	if err != nil {
+		msg := err.Error()
+		v.Assert(len(msg) > 0 && len(msg) < 4096, fmt.Sprintf("too-deep error message has length %d", len(msg)))
 	}
 }
